@@ -83,8 +83,8 @@ PROPS = {
         "assumptions": [],
     },
     "C04": {
-        "lean_targets": ["Pep508.Theorems.C04", "Pep508.Theorems.NonVacuityA"],
-        "theorems": ["Pep508.C04.is_disjoint_sound", "Pep508.C04.is_disjoint_symm", "Pep508.C04.is_disjoint_iff_and_false",
+        "lean_targets": ["Pep508.Theorems.C04b", "Pep508.Theorems.C04", "Pep508.Theorems.NonVacuityA"],
+        "theorems": ["Pep508.C04.is_disjoint_exact_val", "Pep508.C04.is_disjoint_complete_val", "Pep508.C04.is_disjoint_val_needs_sep", "Pep508.C04.nv_exact_disjoint", "Pep508.C04.nv_exact_overlap", "Pep508.C04.is_disjoint_sound", "Pep508.C04.is_disjoint_symm", "Pep508.C04.is_disjoint_iff_and_false",
                      "Pep508.C04.is_false_sound", "Pep508.C04.is_true_sound", "Pep508.C04.and_false_sound",
                      "Pep508.isDisjointF_sound", "Pep508.isDisjointF_comm", "Pep508.isDisjointF_iff_andF"],
         "suites": [{"name": "algebra", "args": ["C04"]}],
@@ -407,7 +407,7 @@ MANIFEST_TEXT = {
         "technique": "Lean 4 theorems: is_disjoint is sound for every environment, symmetric, and equals (and == FALSE) (fuel induction mirroring the recursion) + verdict correspondence",
         "text": "isDisjointF_sound / _comm / _iff_andF over arbitrary linear orders; is_true/is_false soundness is definitional on the kind() view; tied to the code by "
                 "comparing the verdict bits of is_disjoint (both orders) and (a and b).is_false() on literal operands, plus a region-environment oracle.",
-        "note": _NOTE + "is_true/is_false completeness is C03.",
+        "note": _NOTE + "is_true/is_false completeness is C03; C04b: at the model's own value type the verdict of is_disjoint is EXACT for well-formed operands with separated bounds (is_disjoint_exact_val: true iff no environment satisfies both; no false negatives in the model), and the separation is needed (is_disjoint_val_needs_sep).",
     },
     "C11": {
         "technique": "Lean 4 theorems: restrict = evaluation under the overridden environment, result mentions no restricted variable (all markers), with_extra_marker = and; one-step correspondence",
